@@ -100,10 +100,11 @@ where
     T: Buf,
 {
     fn new(id: u16, mtu: usize, buf: T) -> MakeFragments<T> {
-        assert!(mtu > 4);
-        let size = mtu - 4;
         let len = buf.remaining();
-        let total = div_ceil(len, size) as u8;
+        // total is a 7 bit counter: a frame that needs more than 127 fragments, or an
+        // mtu that leaves no room for payload, can not be fragmented (total = 0, yields nothing)
+        let total = if mtu > 4 { div_ceil(len, mtu - 4) } else { usize::MAX };
+        let total = if total > 127 { 0 } else { total as u8 };
         MakeFragments {
             buf,
             mtu,
@@ -114,10 +115,17 @@ where
     }
 }
 
+impl<T: Buf> MakeFragments<T> {
+    // false if the buffer can not be fragmented with this mtu
+    pub fn is_valid(&self) -> bool {
+        self.total > 0 || !self.buf.has_remaining()
+    }
+}
+
 impl<T: Buf> Iterator for MakeFragments<T> {
     type Item = Bytes;
     fn next(&mut self) -> Option<Bytes> {
-        if self.buf.has_remaining() {
+        if self.total > 0 && self.buf.has_remaining() {
             let data_len = self.buf.remaining().min(self.mtu - 4);
             let mut buf = BytesMut::with_capacity(self.mtu);
             buf.put_u16(self.id);
